@@ -196,6 +196,18 @@ class RoundTrip(Relation):
                       'in-memory table')
         else:
             P1 = Regions.parse(table, format='fits')
+        # parsing reads the table: it stays as it was, and parsing it again
+        # gives the same regions
+        ctx.check(_table_equal(table, Regions(regs).serialize(format='fits')),
+                  'parse | parsing modifies the table it is given',
+                  lambda: f'{list(table["SHAPE"])}')
+        Pagain = Regions.parse(table, format='fits')
+        ctx.check(len(Pagain) == len(P1) and all(a == b for a, b in
+                                                 zip(P1, Pagain)),
+                  'parse | parsing the same table a second time gives '
+                  'different regions',
+                  lambda: next((f'{a!r} vs {b!r}' for a, b in zip(P1, Pagain)
+                                if not a == b), 'count'))
         ctx.check(len(P1) == len(regs), 'count | number of regions changes',
                   f'{len(regs)} -> {len(P1)}')
         comps_given = [(r.get('meta') or {}).get('component') for r in specs]
